@@ -127,6 +127,10 @@ fn run_texts(tok: &dyn Tokenize, texts: &[String], int: &mut CpInt, alpha: &[cha
                 }
             }
         };
+        // two decodes that fail (an id outside the vocabulary, a truncated UTF-8 sequence) on this thread first: whatever
+        // they leave behind must not show in the decodes that follow
+        let _ = guard(|| tok.de_tokenize(&[97, 98, 4_000_000_000], false).is_ok());
+        let _ = guard(|| tok.de_tokenize(&[0xE2, 0x82], false).is_ok());
         let dec_keep = dec(&ids_sp, false, &mut fail);
         let dec_drop = dec(&ids_sp, true, &mut fail);
         let dec_ig = dec(&ids_ig, true, &mut fail);
@@ -371,6 +375,8 @@ fn rand_text(rng: &mut ChaCha8Rng, specials: &[String], maxlen: usize) -> String
     let pool: Vec<&str> = vec![
         "a", "b", "z", "A", "0", " ", " ", "\t", "\n", "\r\n", "\u{00A0}", "ä", "é", "e\u{0301}", "€", "字", "😀",
         "👨\u{200D}👩\u{200D}👧", "🇩🇪", "\u{200B}", "<", ">", "<p", "p>", "<<", "/", "|", "~", "\u{3000}", "ß", "x\u{0308}",
+        // the ends of the byte range: NUL (byte id 0), U+0001, DEL, the last code point (bytes F4 8F BF BF)
+        "\u{0}", "\u{1}", "\u{7F}", "\u{10FFFF}",
     ];
     let n = rng.random_range(0..=maxlen);
     let mut s = String::new();
@@ -468,8 +474,8 @@ pub fn gen(seed: u64, n: usize) -> Vec<Value> {
             }
             _ => {
                 // BPE: a random well-formed table over a small alphabet and words over that alphabet
-                let alphas: [&str; 4] = ["ab", "abc", "aä", "ab€"];
-                let alpha = alphas[rng.random_range(0..4)];
+                let alphas: [&str; 5] = ["ab", "abc", "aä", "ab€", "a\u{0}b"];      // NUL is byte id 0
+                let alpha = alphas[rng.random_range(0..5)];
                 let mut bytes: Vec<u8> = alpha.as_bytes().to_vec();
                 if rng.random_bool(0.5) {
                     bytes.push(b' ');
